@@ -387,6 +387,12 @@ CORE_FORMS = [
     "((lambda (p1 . p2) m1 m2) m3 m4)", "(if m1 m2 m3)", "(if m1 m2)", "(set! v1 m1)", "(define v1 m1)", "(define (f1 p1) (define d1 m1) m2)",
     "(define (f1 . p1) m1)", "(f1 m1 (g1 m2) m3)", "(lambda (p1) (define d1 m1) m2)", "((lambda () ((lambda () (define d1 m1) m2))))",
     "(f1 ((lambda () (define d1 m1) m2)))", "(if ((lambda () m1)) ((lambda () (define d1 m2) m3)) m4)",
+    # body forms that are not the last one: calls, conditionals whose arms are constants but whose test is a call (what `and` with
+    # constant later operands expands to), assignments.  (Every identifier sits where evaluating it can have an effect: a parser that
+    # drops forms without effect — a literal, a lambda expression never called — is not this table's subject.)
+    "((lambda () (if (f1 m1) 1 2) m2))", "((lambda () (if (f1 m1) 1) m2))", "(lambda () (if (f1 m1) (if (g1 m2) #t #f) #f) m3)",
+    "(define (f1) (if (g1 m1) 1 2) m2)", "((lambda () (f1 m1) (g1) m2))", "((lambda () (set! v1 (f1 m1)) m2))",
+    "((lambda () (if (f1 m1) 3 \"s\") (g1 m3)))",
 ]
 
 
